@@ -24,6 +24,7 @@ var (
 
 type natRoles struct {
 	out, in, findOut, findIn, remove, alloc, pairMapped, pairLocal *ssa.Function
+	outEntry, inEntry                                               *ssa.Function // the methods the router calls; out/in are their bodies (a "...Locked" helper when the entry is only a lock wrapper)
 	routerIn                                                        *ssa.Function
 	problems                                                        []string
 	enum                                                            map[string]int64
@@ -38,17 +39,18 @@ func resolveNAT(p *Prog) *natRoles {
 		}
 		return f
 	}
-	r.out, r.in = get("translateOutbound"), get("translateInbound")
+	r.outEntry, r.inEntry = get("translateOutbound"), get("translateInbound")
 	if len(r.problems) > 0 {
 		return r
 	}
+	r.out, r.in = bodyOf(r.outEntry), bodyOf(r.inEntry)
 	resolveNATFields(p, r)
 	if len(r.problems) > 0 {
 		return r
 	}
 	// helpers by role
 	for _, f := range p.Funcs {
-		if pkgOf(f) != "vnet" || f.Signature.Recv() == nil || typeName(f.Signature.Recv().Type()) != natT || f == r.out || f == r.in {
+		if pkgOf(f) != "vnet" || f.Signature.Recv() == nil || typeName(f.Signature.Recv().Type()) != natT || f == r.out || f == r.in || f == r.outEntry || f == r.inEntry {
 			continue
 		}
 		lookOut, lookIn, delOut := false, false, false
@@ -92,6 +94,33 @@ func resolveNAT(p *Prog) *natRoles {
 			}
 		}
 	}
+	// the lookup helpers are, first of all, what the translations call to obtain a mapping for a key
+	byCall := func(from *ssa.Function) *ssa.Function {
+		var h *ssa.Function
+		n := 0
+		instrsOf(from, func(in ssa.Instruction) {
+			if cl, ok := in.(*ssa.Call); ok {
+				if sc := cl.Call.StaticCallee(); sc != nil && inModule(sc) && sc.Signature.Results().Len() == 1 &&
+					typeName(sc.Signature.Results().At(0).Type()) == mapT && sc.Signature.Params().Len() == 1 &&
+					sc.Signature.Params().At(0).Type().String() == "string" {
+					if h != sc {
+						n++
+					}
+					h = sc
+				}
+			}
+		})
+		if n == 1 {
+			return h
+		}
+		return nil
+	}
+	if h := byCall(r.out); h != nil {
+		r.findOut = h
+	}
+	if h := byCall(r.in); h != nil {
+		r.findIn = h
+	}
 	r.routerIn = p.Func("vnet", "Router", "onInboundChunk")
 	for n, f := range map[string]*ssa.Function{"outbound lookup helper": r.findOut, "inbound lookup helper": r.findIn, "removal helper": r.remove,
 		"getPairedMappedIP": r.pairMapped, "getPairedLocalIP": r.pairLocal, "Router.onInboundChunk": r.routerIn} {
@@ -116,7 +145,7 @@ func resolveNAT(p *Prog) *natRoles {
 func natAnchors(c *Ctx) *natRoles {
 	setUnitExclude()
 	r := resolveNAT(c.P)
-	setUnitExclude(r.out, r.in, r.findOut, r.findIn, r.remove, r.alloc, r.pairMapped, r.pairLocal, r.routerIn,
+	setUnitExclude(r.out, r.in, r.outEntry, r.inEntry, r.findOut, r.findIn, r.remove, r.alloc, r.pairMapped, r.pairLocal, r.routerIn,
 		c.P.Func("vnet", "Router", "push"), c.P.Func("vnet", "chunkUDP", "Clone"))
 	if len(r.problems) > 0 {
 		o := c.Obl("R0", natT, "anchors of the NAT are resolved", 1)
@@ -229,16 +258,37 @@ func sprintfArgs(call *ssa.Call) []ssa.Value {
 }
 
 // keyParts decomposes a string key into literals and variable parts.
-func keyParts(v ssa.Value, depth int) []kpart {
+func keyParts(v ssa.Value, depth int) []kpart { return keyPartsS(v, depth, nil) }
+
+// keyPartsS: subst binds the parameters of a string-building helper to the arguments of the call being expanded.
+func keyPartsS(v ssa.Value, depth int, subst map[ssa.Value]ssa.Value) []kpart {
 	v = strip(v)
 	if depth > 6 {
 		return []kpart{{V: v}}
+	}
+	if a, ok := subst[v]; ok {
+		return keyPartsS(a, depth+1, nil)
+	}
+	// a module helper that only assembles a string from its parameters is expanded
+	if call, ok := v.(*ssa.Call); ok && !call.Call.IsInvoke() {
+		if h := call.Call.StaticCallee(); h != nil && inModule(h) && len(h.Blocks) == 1 && h.Signature.Recv() == nil &&
+			h.Signature.Results().Len() == 1 && h.Signature.Results().At(0).Type().String() == "string" {
+			if ret, ok := h.Blocks[0].Instrs[len(h.Blocks[0].Instrs)-1].(*ssa.Return); ok {
+				sub := map[ssa.Value]ssa.Value{}
+				for i, prm := range h.Params {
+					if i < len(call.Call.Args) {
+						sub[prm] = call.Call.Args[i]
+					}
+				}
+				return keyPartsS(ret.Results[0], depth+1, sub)
+			}
+		}
 	}
 	if c, ok := v.(*ssa.Const); ok && c.Value != nil && c.Value.Kind() == constant.String {
 		return []kpart{{Lit: constant.StringVal(c.Value)}}
 	}
 	if b, ok := v.(*ssa.BinOp); ok && b.Op == token.ADD {
-		return append(keyParts(b.X, depth+1), keyParts(b.Y, depth+1)...)
+		return append(keyPartsS(b.X, depth+1, subst), keyPartsS(b.Y, depth+1, subst)...)
 	}
 	if call, ok := v.(*ssa.Call); ok && callName(call) == "fmt.Sprintf" {
 		fc, ok := call.Call.Args[0].(*ssa.Const)
@@ -260,8 +310,16 @@ func keyParts(v ssa.Value, depth int) []kpart {
 						lit = ""
 					}
 					if ai < len(args) {
-						// a nested Sprintf argument is expanded only if it is itself a key-like value; keep it atomic
-						out = append(out, kpart{V: args[ai]})
+						// a nested Sprintf argument is kept atomic; a helper parameter is replaced by the caller's argument
+						if a, ok := subst[args[ai]]; ok {
+							if c, ok := strip(a).(*ssa.Const); ok && c.Value != nil && c.Value.Kind() == constant.String {
+								out = append(out, kpart{Lit: constant.StringVal(c.Value)})
+							} else {
+								out = append(out, kpart{V: strip(a)})
+							}
+						} else {
+							out = append(out, kpart{V: args[ai]})
+						}
 					} else {
 						out = append(out, kpart{V: nil})
 					}
@@ -378,32 +436,71 @@ func natKeyUses(p *Prog) []keyUse {
 	return out
 }
 
-// switchTable: for a phi fed by a switch on n.natType.<field>, the class of the value
-// chosen for every enum constant (and "default").
-func switchTable(ph *ssa.Phi, field string) map[string]string {
+// switchTable: for a value selected by a switch on n.natType.<field> - a phi in the
+// translation itself, or the result of a helper that is passed n.natType.<field> and
+// switches on that parameter - the class of the value chosen for every enum constant
+// (and "default").
+func switchTable(v ssa.Value, field string) map[string]string {
 	out := map[string]string{}
-	for i, e := range ph.Edges {
-		pred := ph.Block().Preds[i]
+	labelOf := func(facts []fact, isSel func(ssa.Value) bool) string {
 		label := "default"
-		for _, ft := range append(guardsOfBlock(pred), lastBranchFact(pred, ph.Block())...) {
+		for _, ft := range facts {
 			cm, ok := normCmp(ft.Cond, ft.Val)
 			if !ok || cm.Op != token.EQL {
 				continue
 			}
-			var ld, cst ssa.Value
-			if isNatTypeLoad(cm.X, field) {
-				ld, cst = cm.X, cm.Y
-			} else if isNatTypeLoad(cm.Y, field) {
-				ld, cst = cm.Y, cm.X
-			}
-			if ld == nil {
+			var cst ssa.Value
+			if isSel(cm.X) {
+				cst = cm.Y
+			} else if isSel(cm.Y) {
+				cst = cm.X
+			} else {
 				continue
 			}
 			if k, ok := constInt(cst); ok {
 				label = fmt.Sprint(k)
 			}
 		}
-		out[label] = addrClass(e)
+		return label
+	}
+	put := func(label, class string) {
+		if old, ok := out[label]; ok && old != class {
+			class = old + "|" + class
+		}
+		out[label] = class
+	}
+	switch x := v.(type) {
+	case *ssa.Phi:
+		for i, e := range x.Edges {
+			pred := x.Block().Preds[i]
+			put(labelOf(append(guardsOfBlock(pred), lastBranchFact(pred, x.Block())...), func(y ssa.Value) bool { return isNatTypeLoad(y, field) }), addrClass(e))
+		}
+	case *ssa.Call:
+		h := x.Call.StaticCallee()
+		if h == nil || !inModule(h) || len(h.Blocks) == 0 || h.Signature.Results().Len() != 1 {
+			return out
+		}
+		idx := -1
+		for i, a := range x.Call.Args {
+			if isNatTypeLoad(a, field) {
+				idx = i
+			}
+		}
+		if idx < 0 || idx >= len(h.Params) {
+			return out
+		}
+		sel := h.Params[idx]
+		for _, ret := range findInstrs(h, isReturn) {
+			for _, rv := range retValAt(ret.(*ssa.Return), 0) {
+				for _, leaf := range phiLeavesWithPred(rv) {
+					facts := guardsOfBlock(ret.Block())
+					if leaf.pred != nil {
+						facts = append(guardsOfBlock(leaf.pred), lastBranchFact(leaf.pred, ret.Block())...)
+					}
+					put(labelOf(facts, func(y ssa.Value) bool { return y == ssa.Value(sel) }), addrClass(leaf.v))
+				}
+			}
+		}
 	}
 	return out
 }
@@ -444,31 +541,45 @@ func fmtTable(t map[string]string) string {
 	return strings.Join(out, " ")
 }
 
-// findKeyPhis locates in f the phis assigned by switches on the given natType field.
-func findKeyPhis(f *ssa.Function, field string) []*ssa.Phi {
-	var out []*ssa.Phi
-	instrsOf(f, func(in ssa.Instruction) {
-		ph, ok := in.(*ssa.Phi)
-		if !ok || ph.Type().String() != "string" {
-			return
-		}
-		t := switchTable(ph, field)
-		n := 0
-		for k := range t {
-			if k != "default" {
-				n++
+// findKeyPhis locates in f the values selected by switches on the given natType field.
+func findKeyPhis(f *ssa.Function, field string) []ssa.Value {
+	var out []ssa.Value
+	for _, g := range unitOf(f) {
+		instrsOf(g, func(in ssa.Instruction) {
+			v, ok := in.(ssa.Value)
+			if !ok || v.Type().String() != "string" {
+				return
 			}
-		}
-		if n >= 2 {
-			out = append(out, ph)
-		}
-	})
+			switch in.(type) {
+			case *ssa.Phi, *ssa.Call:
+			default:
+				return
+			}
+			t := switchTable(v, field)
+			n := 0
+			for k := range t {
+				if k != "default" {
+					n++
+				}
+			}
+			if n >= 2 {
+				out = append(out, v)
+			}
+		})
+	}
 	return out
 }
 
-func (r *natRoles) checkTable(o *Obligation, ph *ssa.Phi, field string, want map[int64]string) {
+func valFunc(v ssa.Value) *ssa.Function {
+	if in, ok := v.(ssa.Instruction); ok {
+		return in.Parent()
+	}
+	return nil
+}
+
+func (r *natRoles) checkTable(o *Obligation, ph ssa.Value, field string, want map[int64]string) {
 	t := switchTable(ph, field)
-	o.Site(ph.Pos(), "switch on %s in %s: %s", field, fname(ph.Parent()), fmtTable(t))
+	o.Site(ph.Pos(), "switch on %s in %s: %s", field, fname(valFunc(ph)), fmtTable(t))
 	for k, w := range want {
 		got, ok := t[fmt.Sprint(k)]
 		if !ok {
@@ -640,7 +751,7 @@ func runC02(c *Ctx) {
 	// R3 outbound-only refresh
 	o = c.Obl("R3", mapT+".expires", "the expiry of a mapping is written only on outbound paths (creation and outbound reuse), never by anything reachable from the inbound translation; outbound reuse always refreshes", 2)
 	cg := p.CG()
-	fromIn := cg.reachableFrom([]*ssa.Function{r.in, r.routerIn}, func(e cgEdge) bool { return pkgOf(e.To) == "vnet" && e.Kind != "ref" })
+	fromIn := cg.reachableFrom([]*ssa.Function{r.in, r.inEntry, r.routerIn}, func(e cgEdge) bool { return pkgOf(e.To) == "vnet" && e.Kind != "ref" })
 	isRefresh := func(in ssa.Instruction) bool { return isFieldStore(in, mapT, mExp) }
 	for _, f := range p.Funcs {
 		if pkgOf(f) != "vnet" {
@@ -1014,7 +1125,7 @@ func runC02(c *Ctx) {
 	oneToOne(r.out, "setSourceAddr", "setDestinationAddr", "SourceAddr", r.pairMapped)
 	oneToOne(r.in, "setDestinationAddr", "setSourceAddr", "DestinationAddr", r.pairLocal)
 
-	for _, f := range []*ssa.Function{r.out, r.in} {
+	for _, f := range []*ssa.Function{r.outEntry, r.inEntry} {
 		ob := c.Obl("R7", fname(f), "lock balance on every path", 1)
 		la.lockBalance(ob, f)
 	}
@@ -1024,6 +1135,13 @@ func classOfStored(v ssa.Value) string {
 	cl := addrClass(v)
 	if strings.HasPrefix(cl, "phi:") {
 		return fmt.Sprintf("phi:%s@%d", v.(*ssa.Phi).Comment, v.Pos())
+	}
+	if call, ok := strip(v).(*ssa.Call); ok && !call.Call.IsInvoke() {
+		for _, a := range call.Call.Args {
+			if fr, ok := asFieldLoad(a); ok && fr.SName == "vnet.NATType" {
+				return fmt.Sprintf("phi:table(%s)@%d", fr.Field, v.Pos())
+			}
+		}
 	}
 	return cl
 }
@@ -1258,7 +1376,7 @@ func runC03(c *Ctx) {
 	// R4 refusal has no side effect
 	o = c.Obl("R4", fname(IN), "the inbound translation writes nothing but the clone it returns: no insert into the mapping tables or a permission set, no store to a mapping or the port counter (only deletes of expired mappings)", 3)
 	cg := p.CG()
-	fromIn := cg.reachableFrom([]*ssa.Function{IN}, func(e cgEdge) bool { return pkgOf(e.To) == "vnet" && (e.Kind == "static") })
+	fromIn := cg.reachableFrom([]*ssa.Function{IN, r.inEntry}, func(e cgEdge) bool { return pkgOf(e.To) == "vnet" && (e.Kind == "static") })
 	var fns []*ssa.Function
 	for f := range fromIn {
 		fns = append(fns, f)
@@ -1284,7 +1402,7 @@ func runC03(c *Ctx) {
 	o = c.Obl("R6", fname(r.routerIn), "the child router pushes the inbound translation's result only when it returned no error, and pushes exactly that result", 1)
 	var tcall *ssa.Call
 	instrsOf(r.routerIn, func(in ssa.Instruction) {
-		if cl, ok := in.(*ssa.Call); ok && cl.Call.StaticCallee() == IN {
+		if cl, ok := in.(*ssa.Call); ok && cl.Call.StaticCallee() == r.inEntry {
 			tcall = cl
 		}
 	})
@@ -1338,7 +1456,7 @@ func runC03(c *Ctx) {
 			}
 		}
 	}
-	for _, f := range []*ssa.Function{OUT, IN} {
+	for _, f := range []*ssa.Function{r.outEntry, r.inEntry} {
 		ob := c.Obl("R8", fname(f), "lock balance on every path", 1)
 		la.lockBalance(ob, f)
 	}
@@ -1401,16 +1519,27 @@ func resolveNATFields(p *Prog, r *natRoles) {
 		return
 	}
 	fCtr, mFilt, mExp = ctr, filt, exp
-	// inbound map: the one looked up on the inbound path
+	// inbound map: the one that a function on the inbound path uses alone (the removal helper touches both)
 	inSet := map[string]bool{}
+	isMapF := map[string]bool{maps[0]: true, maps[1]: true}
 	for _, g := range p.CG().reachableSlice(r.in, "vnet") {
+		used := map[string]bool{}
 		instrsOf(g, func(in ssa.Instruction) {
-			if lk, ok := in.(*ssa.Lookup); ok {
-				if fr, ok := asFieldLoad(lk.X); ok && fr.SName == natT {
-					inSet[fr.Field] = true
+			if v, ok := in.(ssa.Value); ok {
+				if fr, ok := asFieldLoad(v); ok && fr.SName == natT && isMapF[fr.Field] {
+					used[fr.Field] = true
 				}
 			}
 		})
+		if len(used) == 1 {
+			for k := range used {
+				inSet[k] = true
+			}
+		}
+	}
+	if len(inSet) != 1 {
+		miss("the table of the inbound direction is not identified (functions on the inbound path use %v alone)", inSet)
+		return
 	}
 	fIn, fOut = "", ""
 	for _, m := range maps {
@@ -1477,4 +1606,41 @@ func resolveNATFields(p *Prog, r *natRoles) {
 	if fIn == "" || fOut == "" || fMappedIPs == "" || fLocalIPs == "" || mMapped == "" || mLocal == "" || mProto == "" || mBound == "" {
 		miss("NAT field roles not resolved (in=%q out=%q mappedIPs=%q localIPs=%q mapped=%q local=%q proto=%q bound=%q)", fIn, fOut, fMappedIPs, fLocalIPs, mMapped, mLocal, mProto, mBound)
 	}
+}
+
+// bodyOf: when f only forwards to one private helper with its own parameters (a lock
+// wrapper around a "...Locked" function), the helper is the body analysed by the rules.
+func bodyOf(f *ssa.Function) *ssa.Function {
+	if f == nil {
+		return nil
+	}
+	var calls []*ssa.Call
+	instrsOf(f, func(in ssa.Instruction) {
+		if cl, ok := in.(*ssa.Call); ok {
+			if h := cl.Call.StaticCallee(); h != nil && isPrivateHelper(h) && types.Identical(h.Signature.Results(), f.Signature.Results()) {
+				calls = append(calls, cl)
+			}
+		}
+	})
+	if len(calls) != 1 {
+		return f
+	}
+	cl := calls[0]
+	for i, a := range cl.Call.Args {
+		if i >= len(f.Params) || a != ssa.Value(f.Params[i]) {
+			return f
+		}
+	}
+	// every return forwards the helper's results
+	for _, ret := range findInstrs(f, isReturn) {
+		for k := range ret.(*ssa.Return).Results {
+			for _, v := range retValAt(ret.(*ssa.Return), k) {
+				ex, ok := v.(*ssa.Extract)
+				if !ok || ex.Tuple != ssa.Value(cl) || ex.Index != k {
+					return f
+				}
+			}
+		}
+	}
+	return cl.Call.StaticCallee()
 }
